@@ -168,3 +168,6 @@ def run(R):
                      timeout=120, portfolio=("z3",))
     c1, c2 = R.call(h, "r_sub_f64", [a, t]), R.call(h, "l_sub_f64", [a, t])
     R.witness("r_sub_f64/reach-noncommutative", [a, t], [c1, c2], F, c1.out != c2.out, portfolio=("z3",))
+    # the optimised code computes what the source computes: every compound assignment (the forms whose only effect is a store
+    # through the reference) at clang -O2
+    R.tv_guard(h, [u for u in h.units.values() if u.name.startswith(("eq_", "eqfx_"))])
